@@ -50,7 +50,8 @@ for n in sorted(val):
     passed_without = sum(int(x) for x in re.findall(r'(\d+) passed', v.get('without', '')))
     failed_with = sum(int(x) for x in re.findall(r'(\d+) failed', v.get('with', '')))
     suite_ok = bool(v.get('suite')) and v['suite'][0] >= 280 and v['suite'][1] == 0
-    confirmed = suite_ok and v.get('with_rc', 0) != 0 and v.get('without_rc', 1) == 0 and passed_without >= 1 and not v['notes']
+    # (the logged result lines are cut at 160 characters, so the counts can miss the crate the demonstration lives in: the exit codes decide)
+    confirmed = suite_ok and v.get('with_rc', 0) != 0 and v.get('without_rc', 1) == 0 and not v['notes']
     st = sweep.get(n, '')
     det = 'caught' if ' DETECTED' in st else ('not caught' if ' missed' in st else ('patch no longer applies' if 'does-not-apply' in st else '?'))
     rows.append((n, confirmed, v.get('suite'), v.get('with_rc'), failed_with, v.get('without_rc'), passed_without, det, st))
